@@ -127,6 +127,7 @@ class Run(object):
         self.noise_rng = np.random.default_rng([int(inst.get("seed", 0)) & 0x7FFFFFFF, 99])
         self.scaling = None      # (shift, scale) in use, filled from the first Controller
         self.kernel_dyk = 0
+        self.growsafety = False  # a safety step happened during the growing phase (a random new direction was added)
         self.initrepair = None   # convex-constrained initialisation: "coordinate" / "negative_step" / "random_needed" (first run of the solve)
 
     def emit(self, _evname, **kw):
@@ -407,6 +408,11 @@ def install(run):
                 finally:
                     run.quiet -= 1
             return saved["S_Controller"].initialise_coordinate_directions(self, number_of_samples, num_directions, params)
+
+        def add_new_direction_while_growing(self, number_of_samples, params, min_num_steps=0):
+            if min_num_steps >= 1:
+                run.growsafety = True        # a safety step while the set is still growing: the new direction is drawn from numpy's global generator
+            return saved["S_Controller"].add_new_direction_while_growing(self, number_of_samples, params, min_num_steps=min_num_steps)
 
         def reduce_rho(self, *a, **k):
             pre = (_fl(self.rho), _fl(self.delta))
